@@ -133,7 +133,7 @@ func emit(id, scenario, key string, nontrivial bool, events int64, viol []string
 // ---------------------------------------------------------------------------
 // A1: the function
 
-var equalHits, leftHits int64
+var equalHits, leftHits, benignCount int64
 
 func runFn(I, P int, pt pattern) {
 	id := fmt.Sprintf("A1/I=%d/P=%d/%s", I, P, pt.name)
@@ -214,8 +214,49 @@ func classOf(name string) string {
 // ---------------------------------------------------------------------------
 // A2: through the state machines
 
-func machineCfg(typ act.SupervisorType, ko bool, n, I, P int) p08.Cfg {
-	return p08.Cfg{Type: typ, Strategy: act.SupervisorStrategyPermanent, KeepOrder: ko, N: n, Intensity: uint16(I), Period: uint16(P)}
+func machineCfg(typ act.SupervisorType, ko bool, st act.SupervisorStrategy, n, I, P int) p08.Cfg {
+	// DisableAutoShutdown keeps the supervisor alive through terminations that need no restart
+	return p08.Cfg{Type: typ, Strategy: st, KeepOrder: ko, N: n, DAS: st != act.SupervisorStrategyPermanent, Intensity: uint16(I), Period: uint16(P)}
+}
+
+// benign lets a running child end in a way that needs no restart (Transient: normal/shutdown,
+// Temporary: anything), checks that the supervisor neither gives up nor counts it, and starts
+// the child again with StartChild. It returns a violation text / inconclusive reason.
+func benign(sim *p08.Sim, rng *rand.Rand, class int, sofo bool, events *int64) (viol, incon string) {
+	live := sim.Live(-1)
+	if len(live) == 0 {
+		return "", ""
+	}
+	victim := live[rng.Intn(len(live))]
+	obs, _ := sim.Apply(p08.Ev{K: p08.EvDie, P: victim.Seq, R: class})
+	*events += int64(obs.Calls)
+	if obs.Panic != nil {
+		return fmt.Sprintf("state machine panicked: %v", obs.Panic), ""
+	}
+	gaveUp := sim.Dead
+	for _, r := range obs.StopReasons {
+		if r == act.ErrSupervisorRestartsExceeded {
+			gaveUp = true
+		}
+	}
+	if gaveUp {
+		return fmt.Sprintf("a child termination that needs no restart (%s) made the supervisor give up / terminate (%v)", p08.Label(p08.ReasonOf(class)), sim.DeadReason), ""
+	}
+	_, steps := drain(sim, rng)
+	*events += steps
+	spec := victim.SpecI
+	if sofo {
+		spec = 0
+	}
+	if len(sim.Live(victim.SpecI)) > 0 && sofo == false {
+		return "", "" // restarted nevertheless: C08's business
+	}
+	o2, _ := sim.Apply(p08.Ev{K: p08.EvStart, S: spec})
+	*events += int64(o2.Calls)
+	if o2.MgmtErr != nil {
+		return "", "StartChild after a normal exit failed: " + o2.MgmtErr.Error()
+	}
+	return "", ""
 }
 
 func drain(sim *p08.Sim, rng *rand.Rand) (gaveUpDuringDrain bool, steps int64) {
@@ -237,10 +278,19 @@ func drain(sim *p08.Sim, rng *rand.Rand) (gaveUpDuringDrain bool, steps int64) {
 }
 
 func runMachine(typ act.SupervisorType, ko bool, n, I, P int, pt pattern) {
-	cfg := machineCfg(typ, ko, n, I, P)
+	runMachineS(typ, ko, act.SupervisorStrategyPermanent, n, I, P, pt)
+}
+
+// runMachineS: with Transient / Temporary the failure pattern is mixed with terminations that need no restart
+func runMachineS(typ act.SupervisorType, ko bool, st act.SupervisorStrategy, n, I, P int, pt pattern) {
+	cfg := machineCfg(typ, ko, st, n, I, P)
 	kos := ""
 	if ko {
 		kos = "-keeporder"
+	}
+	mixed := st != act.SupervisorStrategyPermanent
+	if mixed {
+		kos += "/" + p08.StrategyShort(st) + "-mixed"
 	}
 	id := fmt.Sprintf("A2/%s%s/n=%d/I=%d/P=%d/%s", p08.TypeShort(typ), kos, n, I, P, pt.name)
 	if !hk.Want(id) {
@@ -284,6 +334,45 @@ func runMachine(typ act.SupervisorType, ko bool, n, I, P int, pt pattern) {
 			sig = "not-restarted-below-limit:" + fam
 			break
 		}
+		if mixed {
+			// terminations that need no restart, at the same virtual time as the failure (inside the period)
+			nb := rng.Intn(3)
+			if k == 0 {
+				nb = 1 + rng.Intn(2)
+			}
+			if st == act.SupervisorStrategyTemporary {
+				nb++ // the "failure" itself needs no restart either: see below
+			}
+			stop := false
+			for b := 0; b < nb && stop == false; b++ {
+				class := rng.Intn(2) // normal / shutdown
+				if st == act.SupervisorStrategyTemporary {
+					class = rng.Intn(3) // Temporary: a crash needs no restart either
+				}
+				benignCount++
+				vt, ic := benign(sim, rng, class, sofo, &events)
+				if vt != "" {
+					viol = append(viol, fmt.Sprintf("before failure %d: %s", k, vt))
+					sig = "gives-up-early:" + fam
+					stop = true
+				}
+				if ic != "" {
+					incon = ic
+					stop = true
+				}
+			}
+			if stop {
+				break
+			}
+			if st == act.SupervisorStrategyTemporary {
+				continue // nothing is ever restarted: the supervisor must never give up
+			}
+			live = sim.Live(-1)
+			if len(live) != n {
+				incon = "children not restored after the benign exits"
+				break
+			}
+		}
 		victim := live[rng.Intn(len(live))]
 		t0 := time.Now().UnixMilli()
 		obs, _ := sim.Apply(p08.Ev{K: p08.EvDie, P: victim.Seq, R: p08.RCrash})
@@ -319,7 +408,7 @@ func runMachine(typ act.SupervisorType, ko bool, n, I, P int, pt pattern) {
 		if gaveUp != exp {
 			if gaveUp {
 				sig = "gives-up-early:" + fam
-				viol = append(viol, fmt.Sprintf("failure %d made the supervisor give up with only %d restart(s) in the last %d s (+ this one), Intensity %d", k, in, P, I))
+				viol = append(viol, fmt.Sprintf("failure %d made the supervisor give up with only %d restart(s) in the last %d s (+ this one), Intensity %d (terminations that needed no restart do not count)", k, in, P, I))
 			} else {
 				sig = "keeps-restarting-beyond-limit:" + fam
 				viol = append(viol, fmt.Sprintf("failure %d did not make the supervisor give up although %d restarts lie within the last %d s (+ this one), Intensity %d", k, in, P, I))
@@ -360,7 +449,13 @@ func runMachine(typ act.SupervisorType, ko bool, n, I, P int, pt pattern) {
 	if len(viol) > 0 {
 		detail["history"] = sim.Trace
 	}
-	emit(id, "A2-machines-virtual-clock", key, left, events, viol, sig, incon, detail)
+	scenario := "A2-machines-virtual-clock"
+	nontrivial := left
+	if mixed {
+		scenario = "A2-machines-mixed-with-no-restart-terminations"
+		nontrivial = true // every such sequence contains terminations that must not be counted (k == 0 forces one)
+	}
+	emit(id, scenario, key, nontrivial, events, viol, sig, incon, detail)
 }
 
 // ---------------------------------------------------------------------------
@@ -371,7 +466,15 @@ const guardMs = 200
 type liveFail struct{ lo, hi int64 } // the supervisor read its clock for this failure within [lo, hi]
 
 func runLive(node *hk.HNode, driver gen.PID, name string, typ act.SupervisorType, n, I int, gapsMs []int) {
+	runLiveS(node, driver, name, typ, act.SupervisorStrategyPermanent, n, I, gapsMs)
+}
+
+func runLiveS(node *hk.HNode, driver gen.PID, name string, typ act.SupervisorType, st act.SupervisorStrategy, n, I int, gapsMs []int) {
+	mixed := st != act.SupervisorStrategyPermanent
 	id := fmt.Sprintf("B/%s/n=%d/I=%d/%s", p08.TypeShort(typ), n, I, name)
+	if mixed {
+		id = fmt.Sprintf("B/%s/%s-mixed/n=%d/I=%d/%s", p08.TypeShort(typ), p08.StrategyShort(st), n, I, name)
+	}
 	if !hk.Want(id) {
 		return
 	}
@@ -379,7 +482,7 @@ func runLive(node *hk.HNode, driver gen.PID, name string, typ act.SupervisorType
 	if typ == act.SupervisorTypeAllForOne || typ == act.SupervisorTypeRestForOne {
 		fam = "ARFO"
 	}
-	cfg := p08.Cfg{Type: typ, Strategy: act.SupervisorStrategyPermanent, N: n, Intensity: uint16(I), Period: 1}
+	cfg := p08.Cfg{Type: typ, Strategy: st, N: n, DAS: mixed, Intensity: uint16(I), Period: 1}
 	var viol []string
 	sig, incon := "", ""
 	left := false
@@ -413,6 +516,58 @@ func runLive(node *hk.HNode, driver gen.PID, name string, typ act.SupervisorType
 			viol = append(viol, fmt.Sprintf("before failure %d only %d of %d children are running", k, len(live), n))
 			sig = "not-restarted-below-limit:" + fam
 			break
+		}
+		if mixed {
+			// terminations that need no restart, right before the failure (inside the period)
+			nb := 1 + rng.Intn(2)
+			for b := 0; b < nb && incon == "" && len(viol) == 0; b++ {
+				var reason error = gen.TerminateReasonNormal
+				switch {
+				case st == act.SupervisorStrategyTemporary && rng.Intn(2) == 0:
+					reason = p08.ErrCrash
+				case rng.Intn(2) == 0:
+					reason = gen.TerminateReasonShutdown
+				}
+				lv := l.LiveOf(-1)
+				if len(lv) == 0 {
+					break
+				}
+				v := lv[rng.Intn(len(lv))]
+				if l.Kill(v, reason) == false || l.WaitQuiescent(20*time.Second) == false {
+					incon = "watchdog: benign exit"
+					break
+				}
+				if dead, r := l.Terminated(); dead {
+					sig = "gives-up-early:" + fam
+					viol = append(viol, fmt.Sprintf("before failure %d: a child termination that needs no restart (%v) ended the supervisor with %q", k, reason, fmt.Sprint(r)))
+					break
+				}
+				spec := v.SpecI
+				if sofo {
+					spec = 0
+				}
+				if len(l.LiveOf(v.SpecI)) == 0 || sofo {
+					if res, cerr := l.Mgmt(p08.EvStart, spec); cerr != nil || res != nil {
+						incon = fmt.Sprintf("StartChild after a benign exit: %v %v", res, cerr)
+						break
+					}
+					if l.WaitQuiescent(20*time.Second) == false {
+						incon = "watchdog: no quiescence after StartChild"
+					}
+				}
+				log = append(log, fmt.Sprintf("   benign exit of c%d (%v), started again", v.SpecI, reason))
+			}
+			if incon != "" || len(viol) > 0 {
+				break
+			}
+			if st == act.SupervisorStrategyTemporary {
+				continue // nothing is ever restarted: never give up
+			}
+			live = l.LiveOf(-1)
+			if len(live) != n {
+				incon = "children not restored after the benign exits"
+				break
+			}
 		}
 		victim := live[rng.Intn(len(live))]
 		lo := time.Now().UnixMilli()
@@ -478,7 +633,12 @@ func runLive(node *hk.HNode, driver gen.PID, name string, typ act.SupervisorType
 		events += r.Inst.Callbacks.Load()
 	}
 	key := fmt.Sprintf("B/%s/%s/left-window=%v", p08.TypeShort(typ), name, left)
-	emit(id, "B-live-real-time", key, left, events, viol, sig, incon, map[string]any{"config": cfg.ID(), "gaps_ms": gapsMs, "log": log})
+	scenario := "B-live-real-time"
+	if mixed {
+		key = fmt.Sprintf("B/%s/%s-mixed/%s/left-window=%v", p08.TypeShort(typ), p08.StrategyShort(st), name, left)
+		scenario = "B-live-mixed-with-no-restart-terminations"
+	}
+	emit(id, scenario, key, left || mixed, events, viol, sig, incon, map[string]any{"config": cfg.ID(), "gaps_ms": gapsMs, "log": log})
 }
 
 func base(e error) error {
@@ -494,7 +654,7 @@ func base(e error) error {
 
 func main() {
 	hk.InstallHook()
-	hk.Rule("A1: Intensity 1..8 x Period 1..5 x failure patterns (burst; bursts separated by Period-2ms/-1ms/exactly Period/+1ms/2 Periods; slow drip; tight drip; half burst then drip; seeded PRNG gaps) on supCheckRestartIntensity under a virtual clock; A2: the same patterns through the one-for-one, all/rest-for-one (with and without KeepOrder) and simple-one-for-one state machines with 1..3 children, a random running child fails each time, requested exits are delivered in random order; B: live supervisors, Period 1 s, Intensity 1..3, failures induced at real times. One case per sequence; non-trivial iff at least one counted restart had left the window before the last failure of the sequence (measured: tells a sliding window from a counter); distinct = layer x machine x pattern class x left-window")
+	hk.Rule("A1: Intensity 1..8 x Period 1..5 x failure patterns (burst; bursts separated by Period-2ms/-1ms/exactly Period/+1ms/2 Periods; slow drip; tight drip; half burst then drip; seeded PRNG gaps) on supCheckRestartIntensity under a virtual clock; A2: the same patterns through the one-for-one, all/rest-for-one (with and without KeepOrder) and simple-one-for-one state machines with 1..3 children, a random running child fails each time, requested exits are delivered in random order; with Permanent every failure needs a restart, with Transient and Temporary (DisableAutoShutdown, child started again with StartChild) each failure is preceded by 0..2 seeded terminations that need no restart (normal/shutdown exits; any exit of a Temporary child), which the sliding-window reference does not count (those cases are non-trivial by construction); B: live supervisors, Period 1 s, Intensity 1..3, failures induced at real times. One case per sequence; non-trivial iff at least one counted restart had left the window before the last failure of the sequence (measured: tells a sliding window from a counter); distinct = layer x machine x pattern class x left-window")
 	hk.Assume("virtual clock: between failures every recorded timestamp is moved into the past (VerifSup.AgeRestarts / ageing the list passed to the function), which is equivalent to the wall clock advancing; the clock value of a failure is read from the element the code appended and cross-checked with a wall-clock bracket around the call")
 	hk.Assume("layer B: the supervisor reads its clock between the moment the harness sends the kill command and the moment it sees quiescence again; gaps within 200 ms of the period boundary are inconclusive by rule")
 
@@ -536,6 +696,29 @@ func main() {
 			}
 		}
 	}
+	// Transient / Temporary: failures mixed with terminations that need no restart (they must not be counted)
+	for _, m := range mts {
+		for _, st := range []act.SupervisorStrategy{act.SupervisorStrategyTransient, act.SupervisorStrategyTemporary} {
+			for _, I := range Is {
+				for _, P := range Ps {
+					rng := hk.Rng("c09", "A2m", fmt.Sprint(m.typ, m.ko, st, I, P))
+					pts := patterns(I, P, rng, hk.Pick(1, 6))
+					for pi, pt := range pts {
+						if st == act.SupervisorStrategyTemporary && pi > 1 && hk.Thorough() == false {
+							continue // Temporary never restarts: burst and one separated burst are enough in quick
+						}
+						for n := 1; n <= 3; n++ {
+							if hk.Thorough() == false && (pi+n+I+P)%3 != 0 && !(n == 2 && pi == 0) {
+								continue
+							}
+							runMachineS(m.typ, m.ko, st, n, I, P, pt)
+						}
+					}
+				}
+			}
+		}
+	}
+	hk.Stat("terminations_needing_no_restart_injected", benignCount)
 	// Intensity / Period left zero: the defaults (5 restarts in 5 s) apply
 	for _, m := range mts {
 		for _, pt := range patterns(5, 5, hk.Rng("c09", "A2-default", fmt.Sprint(m.typ, m.ko)), 1) {
@@ -564,6 +747,7 @@ func main() {
 			typ  act.SupervisorType
 			n, I int
 			gaps []int
+			st   act.SupervisorStrategy
 		}
 		var cases []lc
 		rep := func(n, g int) []int {
@@ -585,13 +769,28 @@ func main() {
 				typ act.SupervisorType
 				n   int
 			}{{act.SupervisorTypeOneForOne, 1}, {act.SupervisorTypeOneForOne, 2}, {act.SupervisorTypeAllForOne, 2}, {act.SupervisorTypeRestForOne, 3}, {act.SupervisorTypeSimpleOneForOne, 2}} {
-				cases = append(cases, lc{"burst", t.typ, t.n, I, rep(I+2, 0)})
-				cases = append(cases, lc{"bursts-sep-1.4s", t.typ, t.n, I, cat(rep(I, 0), []int{1400}, rep(I+2, 0))})
+				cases = append(cases, lc{"burst", t.typ, t.n, I, rep(I+2, 0), act.SupervisorStrategyPermanent})
+				cases = append(cases, lc{"bursts-sep-1.4s", t.typ, t.n, I, cat(rep(I, 0), []int{1400}, rep(I+2, 0)), act.SupervisorStrategyPermanent})
 				if hk.Thorough() || t.n <= 2 {
-					cases = append(cases, lc{"drip-1.3s-then-burst", t.typ, t.n, I, cat([]int{0}, rep(2, 1300), rep(I+2, 0))})
+					cases = append(cases, lc{"drip-1.3s-then-burst", t.typ, t.n, I, cat([]int{0}, rep(2, 1300), rep(I+2, 0)), act.SupervisorStrategyPermanent})
 				}
 				if I >= 2 {
-					cases = append(cases, lc{"drip-0.65s", t.typ, t.n, I, cat([]int{0}, rep(4, 650), rep(I+2, 0))})
+					cases = append(cases, lc{"drip-0.65s", t.typ, t.n, I, cat([]int{0}, rep(4, 650), rep(I+2, 0)), act.SupervisorStrategyPermanent})
+				}
+			}
+		}
+		// Transient / Temporary: crashes mixed with terminations that need no restart
+		for I := 1; I <= 3; I++ {
+			for _, t := range []struct {
+				typ act.SupervisorType
+				n   int
+			}{{act.SupervisorTypeOneForOne, 2}, {act.SupervisorTypeOneForOne, 1}, {act.SupervisorTypeAllForOne, 2}, {act.SupervisorTypeSimpleOneForOne, 2}} {
+				cases = append(cases, lc{"burst", t.typ, t.n, I, rep(I+2, 0), act.SupervisorStrategyTransient})
+				if hk.Thorough() || t.n == 2 {
+					cases = append(cases, lc{"bursts-sep-1.4s", t.typ, t.n, I, cat(rep(I, 0), []int{1400}, rep(I+2, 0)), act.SupervisorStrategyTransient})
+				}
+				if I == 1 || hk.Thorough() {
+					cases = append(cases, lc{"burst", t.typ, t.n, I, rep(I+3, 0), act.SupervisorStrategyTemporary})
 				}
 			}
 		}
@@ -604,7 +803,7 @@ func main() {
 			go func() {
 				defer wg.Done()
 				defer func() { <-sem }()
-				runLive(node, driver, c.name, c.typ, c.n, c.I, c.gaps)
+				runLiveS(node, driver, c.name, c.typ, c.st, c.n, c.I, c.gaps)
 			}()
 		}
 		wg.Wait()
